@@ -18,6 +18,11 @@ type C17Bar struct{ Msg string }
 type C17Qux struct{ Msg string }
 type C17Baz struct{ Msg string }
 
+// C17Zed: v4 of the code renamed Baz once more (chain of three renames).
+type C17Zed struct{ Msg string }
+
+func (e *C17Zed) Error() string { return e.Msg }
+
 func (e *C17Foo) Error() string { return e.Msg }
 func (e *C17Bar) Error() string { return e.Msg }
 func (e *C17Qux) Error() string { return e.Msg }
@@ -40,6 +45,8 @@ func init() {
 			return &C17Qux{msg}
 		case 4:
 			return &C17Baz{msg}
+		case 5:
+			return &C17Zed{msg}
 		}
 		return nil // unknowing process: opaque
 	})
@@ -59,12 +66,23 @@ func inProcess(version, order int, body func()) {
 	case 3:
 		errors.RegisterTypeMigration("verifh", "*verifh.C17Foo", &C17Qux{})
 	case 4:
-		if order == 0 {
+		if order%2 == 0 {
 			errors.RegisterTypeMigration("verifh", "*verifh.C17Foo", &C17Bar{})
 			errors.RegisterTypeMigration("verifh", "*verifh.C17Bar", &C17Baz{})
 		} else {
 			errors.RegisterTypeMigration("verifh", "*verifh.C17Bar", &C17Baz{})
 			errors.RegisterTypeMigration("verifh", "*verifh.C17Foo", &C17Bar{})
+		}
+	case 5:
+		// three chained renames, registered in any of the six orders
+		regs := []func(){
+			func() { errors.RegisterTypeMigration("verifh", "*verifh.C17Foo", &C17Bar{}) },
+			func() { errors.RegisterTypeMigration("verifh", "*verifh.C17Bar", &C17Baz{}) },
+			func() { errors.RegisterTypeMigration("verifh", "*verifh.C17Baz", &C17Zed{}) },
+		}
+		perms := [][3]int{{0, 1, 2}, {0, 2, 1}, {1, 0, 2}, {1, 2, 0}, {2, 0, 1}, {2, 1, 0}}
+		for _, i := range perms[order%6] {
+			regs[i]()
 		}
 	}
 	body()
@@ -80,6 +98,8 @@ func c17Make(version int, m string) error {
 		return &C17Qux{m}
 	case 4:
 		return &C17Baz{m}
+	case 5:
+		return &C17Zed{m}
 	}
 	return nil
 }
@@ -97,6 +117,9 @@ func c17SameType(version int, e error) bool {
 		return ok
 	case 4:
 		_, ok := e.(*C17Baz)
+		return ok
+	case 5:
+		_, ok := e.(*C17Zed)
 		return ok
 	}
 	return true
@@ -129,10 +152,11 @@ func familyOf(enc *wire.Enc) string {
 // different versions compare equal on a process that never knew the type.
 func H_C17_Migration(v *sym.V) {
 	m := v.Str("m", sym.REGNN, 1, v.Param("maxlen", 2))
-	sender := 1 + v.Choice("sender", 4)
-	mid := v.Choice("mid", 6) // 0..4 = version of an intermediary, 5 = none
-	recv := v.Choice("recv", 5)
-	order := v.Choice("order", 2)
+	nv := v.Param("versions", 5) // 4: chains of two renames; 5: chains of three
+	sender := 1 + v.Choice("sender", nv)
+	mid := v.Choice("mid", nv+2) // 0..nv = version of an intermediary, nv+1 = none
+	recv := v.Choice("recv", nv+1)
+	order := v.Choice("order", 6)
 	wrapped := v.Choice("wrapped", 2) == 1
 
 	var enc *wire.Enc
@@ -145,7 +169,7 @@ func H_C17_Migration(v *sym.V) {
 		enc = wire.Copy(wire.Encode(e))
 	})
 	v.Assert("wire-name", familyOf(leafOf(enc)) == c17FooKey)
-	if mid < 5 {
+	if mid <= nv {
 		inProcess(mid, order, func() {
 			enc = wire.Copy(wire.Encode(wire.Decode(enc)))
 		})
@@ -161,7 +185,7 @@ func H_C17_Migration(v *sym.V) {
 		} else {
 			// scenario 5: a process that never knew the type compares two arrivals
 			var enc2 *wire.Enc
-			other := 1 + v.Choice("other", 4)
+			other := 1 + v.Choice("other", nv)
 			inProcess(other, order, func() { enc2 = wire.Copy(wire.Encode(c17Make(other, m))) })
 			d2 := wire.Decode(enc2)
 			v.Assert("is-third-party", sym.And(errors.Is(d, d2), errors.Is(d2, errors.UnwrapAll(d))))
@@ -188,4 +212,66 @@ func H_C17_Duplicate(v *sym.V) {
 		}
 	}()
 	v.Assert("duplicate-rejected", panicked)
+}
+
+// A renamed wrapper type: WFoo (v1) was renamed WBar (v2). No decoder is
+// registered for it, so receivers keep it as an opaque wrapper.
+type C17WFoo struct{ Cause error }
+type C17WBar struct{ Cause error }
+
+func (w *C17WFoo) Error() string { return "w: " + w.Cause.Error() }
+func (w *C17WFoo) Unwrap() error { return w.Cause }
+func (w *C17WBar) Error() string { return "w: " + w.Cause.Error() }
+func (w *C17WBar) Unwrap() error { return w.Cause }
+
+const c17WFooKey = "verifh/*verifh.C17WFoo"
+
+func inWrapperProcess(version int, body func()) {
+	restore := errbase.TestingWithEmptyMigrationRegistry()
+	defer restore()
+	if version == 2 {
+		errors.RegisterTypeMigration("verifh", "*verifh.C17WFoo", &C17WBar{})
+	}
+	body()
+}
+
+func c17MakeW(version int, cause error) error {
+	if version == 2 {
+		return &C17WBar{cause}
+	}
+	return &C17WFoo{cause}
+}
+
+// H_C17_Wrapper: the same for a renamed wrapper type that stays opaque at the
+// receiver: wire name, identity against a local instance, third-party comparison.
+func H_C17_Wrapper(v *sym.V) {
+	m := v.Str("m", sym.REGNN, 1, v.Param("maxlen", 2))
+	sender := 1 + v.Choice("sender", 2)
+	recv := v.Choice("recv", 3)
+	var enc *wire.Enc
+	inWrapperProcess(sender, func() {
+		e := c17MakeW(sender, errors.New(m))
+		v.Assert("wkey@sender", string(errors.GetTypeKey(e)) == c17WFooKey)
+		enc = wire.Copy(wire.Encode(e))
+	})
+	v.Assert("wwire-name", familyOf(enc) == c17WFooKey)
+	if v.Choice("via-unknowing", 2) == 1 {
+		inWrapperProcess(0, func() { enc = wire.Copy(wire.Encode(wire.Decode(enc))) })
+		v.Assert("wwire-name-after-mid", familyOf(enc) == c17WFooKey)
+	}
+	inWrapperProcess(recv, func() {
+		d := wire.Decode(enc)
+		v.Assert("wtext", d.Error() == "w: "+m)
+		v.Assert("wkey@receiver", string(errors.GetTypeKey(d)) == c17WFooKey)
+		if recv > 0 {
+			local := c17MakeW(recv, errors.New(m))
+			v.Assert("wis-local", sym.And(errors.Is(d, local), errors.Is(local, d)))
+		} else {
+			other := 1 + v.Choice("other", 2)
+			var enc2 *wire.Enc
+			inWrapperProcess(other, func() { enc2 = wire.Copy(wire.Encode(c17MakeW(other, errors.New(m)))) })
+			d2 := wire.Decode(enc2)
+			v.Assert("wis-third-party", sym.And(errors.Is(d, d2), errors.Is(d2, d)))
+		}
+	})
 }
